@@ -120,3 +120,18 @@ package policysync
 //@   option stable (*EndpointInfo).output
 //@   ghost at call referencesIPSet: check arg2 == id ; c31Ref = res
 //@   ghost at call chansend: check c31Ref && arg0 == ei.output
+
+//@ -- referencesIPSet: a reference found through a profile is not forgotten while the policies are scanned (both
+//@ -- scan callbacks only ever turn the answer to true)
+//@ func (*Processor).referencesIPSet$1
+//@   property C31
+//@   option safety off
+//@   option stable *bool
+//@   ensures old(*found) ==> *found
+//@   ensures res ==> *found
+//@ func (*Processor).referencesIPSet$2
+//@   property C31
+//@   option safety off
+//@   option stable *bool
+//@   ensures old(*found) ==> *found
+//@   ensures res ==> *found
